@@ -233,6 +233,79 @@ pub fn minimiser_runs(seq: &[u8], w: usize, m: usize) -> Vec<(u64, usize, usize)
     out
 }
 
+/// The same runs for giant inputs and giant windows: per clean stretch the canonical m-mers are read base
+/// by base from the text and the window minimum is kept with a monotone queue (amortised O(1) per window).
+/// Cross-checked against `minimiser_runs` on a prefix whenever it is used.
+pub fn minimiser_runs_fast(seq: &[u8], w: usize, m: usize) -> Vec<(u64, usize, usize)> {
+    let out = minimiser_runs_fast_inner(seq, w, m);
+    // self-check on a prefix with a window small enough for the naive model
+    let head = &seq[..seq.len().min(1500)];
+    let wc = w.min(m + 40);
+    assert_eq!(minimiser_runs_fast_inner(head, wc, m), minimiser_runs(head, wc, m), "model self-check: minimiser models disagree");
+    out
+}
+
+fn minimiser_runs_fast_inner(seq: &[u8], w: usize, m: usize) -> Vec<(u64, usize, usize)> {
+    let mut out: Vec<(u64, usize, usize)> = Vec::new();
+    let n = seq.len();
+    if m == 0 || w < m || n < w {
+        return out;
+    }
+    let mut i = 0usize;
+    while i < n {
+        if !is_base(seq[i]) {
+            i += 1;
+            continue;
+        }
+        let mut j = i;
+        while j < n && is_base(seq[j]) {
+            j += 1;
+        }
+        // clean stretch [i, j)
+        if j - i >= w {
+            let cnt = j - i - m + 1; // m-mers of the stretch
+            let canon: Vec<u64> = (0..cnt)
+                .map(|p| {
+                    let (mut f, mut r) = (0u64, 0u64);
+                    for q in 0..m {
+                        f = f * 4 + base(seq[i + p + q]).unwrap() as u64;
+                        r = r * 4 + (3 - base(seq[i + p + m - 1 - q]).unwrap()) as u64;
+                    }
+                    f.min(r)
+                })
+                .collect();
+            let span = w - m + 1; // m-mers per window
+            let mut dq: std::collections::VecDeque<usize> = std::collections::VecDeque::new();
+            let mut prev: Option<u64> = None;
+            for p in 0..cnt {
+                while let Some(&b) = dq.back() {
+                    if canon[b] >= canon[p] {
+                        dq.pop_back();
+                    } else {
+                        break;
+                    }
+                }
+                dq.push_back(p);
+                if p + 1 >= span {
+                    let s = p + 1 - span; // window start (relative)
+                    while *dq.front().unwrap() < s {
+                        dq.pop_front();
+                    }
+                    let mn = canon[*dq.front().unwrap()];
+                    if prev == Some(mn) {
+                        out.last_mut().unwrap().2 = i + s + w;
+                    } else {
+                        out.push((mn, i + s, i + s + w));
+                    }
+                    prev = Some(mn);
+                }
+            }
+        }
+        i = j;
+    }
+    out
+}
+
 fn encode_opt(text: &[u8]) -> Option<u64> {
     let mut x = 0u64;
     for &b in text {
